@@ -151,10 +151,18 @@ func (x *XObject) Count() int {
 
 // Get retrieves the named property
 func (x *XObject) Get(key string) (XValue, bool) {
+	props := x.properties()
+
+	// exact match takes priority
+	if v, exists := props[key]; exists {
+		return v, true
+	}
+
+	// otherwise fallback to case-insensitive match in a deterministic order
 	key = strings.ToLower(key)
-	for p, v := range x.properties() {
+	for _, p := range x.Properties() {
 		if strings.ToLower(p) == key {
-			return v, true
+			return props[p], true
 		}
 	}
 
